@@ -114,7 +114,10 @@ FAMILY_NOTE = (" Beyond the exhaustive small scopes the same oracle also runs on
                "labelled as such in the evidence) families of large or unusual inputs - sizes up to 9000 items, thresholds, "
                "asymmetric lengths, thousands of hunks, long and Unicode-rich texts, huge radii / op lengths - added after "
                "independently seeded changes showed which size- and width-triggered defects small scopes cannot reach "
-               "(DESIGN.md sections 12-14).")
+               "(DESIGN.md sections 12-14). Later rounds added usage dimensions to every check (histories on one object, every way "
+               "of consuming an iterator, re-entrant hooks, same-thread histories, aliasing, caller-side trait implementations and "
+               "unusual element types). Each run executes in a child process: a death by signal (abort, stack overflow) and a shard "
+               "that does not come back are reported as violations with a replay, not as a dead or hanging check.")
 
 NOT_BUILT_REASON = "check not built yet in this snapshot of /verif (work in progress; see DESIGN.md section 11)"
 
